@@ -4,6 +4,12 @@ import json, os, subprocess
 ROOT = os.path.dirname(os.path.abspath(__file__))
 ALL = ["C%02d" % i for i in range(1, 21)]
 CHECKS = {
+ "C03": dict(engine="tlc+tlc-trace", technique="explicit TLA+ model of the async client (Client.tla) model-checked by TLC over all interleavings; recorded executions of the real client validated against it (trace validation, impl->spec)",
+             text="Client.tla models front-end futures, the front->back queue, send task, read task, the request manager tables, streams and the shutdown hand-over, with an adversarial peer; TLC checks routing / unique-wire-id invariants over every interleaving of the bounded config, the as-is config shows that ids overlap without range reservation (F10); seeded scenarios are run against the real client over an in-memory transport and every recorded trace must be a behaviour of the spec with all invariants holding at each step (a completion must carry the token of a consumed text with the operation's own id).",
+             note="TLC exhausts the model's interleavings for small constants; the real tokio schedules are sampled (seeded yields on a current_thread runtime), numeric and string ids", ref="5 (C03)"),
+ "C17": dict(engine="tlc+vh-replay", technique="TLA+ model of the generated-stub parameter convention (RpcMacro.tla: Encode -> wire -> Decode) enumerated by TLC; API family generated from the enumerated shapes and expanded by the real proc-macro; every call replayed over a loop-back client",
+             text="RpcMacro.tla enumerates every method shape (0..4 required/optional slots x array/map x namespace form) and every call on it (handler kind, presence vector, encoding variant incl. raw positional with omitted tail / nulls, raw named with omitted optionals / other-case aliases, missing required) with invariants ArgsEqual / MissingRequiredIsError / SameHandlerUnderAliasAndNamespace; 186 #[rpc(server, client)] traits are generated from that enumeration and compiled with the tree's proc-macro; each of the 20850 calls is replayed through a real async client looped back into the generated RpcModule, comparing recorded server arguments, returned value / error object and the params shape on the wire.",
+             note="argument values are seeded samples (boundary integers, Unicode strings, nested struct/enum, vectors); generics, lifetimes and custom bounds are outside the family", ref="5 (C17)"),
  "C15": dict(engine="tlc+vh-replay", technique="TLA+ acceptance predicate over response member sequences and error-code table (WireResp.tla) enumerated / checked by TLC; replayed into the real parser; i32 sweep against the exported table; sampled value round trips",
              text="WireResp.tla states when a response object is accepted (as a predicate over member sequences, so order and duplication are covered) and the code<->kind table with its round-trip invariants (as-is config documents F11); TLC enumerates all 66430 member sequences and the probe codes; each is replayed into serde_json::from_str::<Response<_>> / ErrorCode; the harness additionally sweeps i32 codes against the table TLC exported and round-trips seeded values of every public wire type.",
              note="member classes exhaustive; concrete values, ids and payloads are seeded samples; full 2^32 sweep only in the thorough tier", ref="5 (C15)"),
